@@ -13,6 +13,7 @@ import (
 	"fmt"
 	"math/big"
 	"os"
+	"path/filepath"
 	"sort"
 	"strconv"
 	"strings"
@@ -77,12 +78,12 @@ type tableSpec struct {
 	sx, sy      float64
 	widthKind   string // auto | px | pct
 	widthVal    float64
-	specW       *float64 // resolved specified `width`, nil = auto; content-box width once observe() applied box-sizing
+	specW       *float64 // resolved specified `width` (as declared; observe() applies box-sizing), nil = auto
 	borderBox   bool     // box-sizing: border-box (the UA sheet's default for <table>)
 	malformed   bool
 	cells       map[string]*cellSpec
 	baselineAny bool
-	adjusted    bool
+	raw         string // corpus case: the document itself
 }
 
 func q(r *rng.R, lo, hi int) float64 { return float64(r.Range(lo*4, hi*4)) / 4 } // dyadic k/4
@@ -101,6 +102,17 @@ func spanAttr(r *rng.R, max int, malformed bool) string {
 		return rng.Pick(r, "-2", "abc", " 2 ", "2.5", "40", "+2", "")
 	}
 	return strconv.Itoa(r.Range(1, max))
+}
+
+// minWidth: min-content width of the cell's content (longest unbreakable Ahem word, fixed block)
+func (c *cellSpec) minWidth() float64 {
+	m := float64(c.blockW)
+	for _, w := range c.words {
+		if v := float64(w * c.fontSize); v > m {
+			m = v
+		}
+	}
+	return m
 }
 
 func genCell(r *rng.R, t *tableSpec, id string, ncols, nrows int) *cellSpec {
@@ -364,6 +376,9 @@ func attr(name, v string, present bool) string {
 }
 
 func (t *tableSpec) html() string {
+	if t.raw != "" {
+		return t.raw
+	}
 	var b strings.Builder
 	fmt.Fprintf(&b, `<style>@page{size:1000px 20000px;margin:0} html,body{margin:0;padding:0} body{width:%dpx;font:20px/20px Ahem} .c{%s}</style><body>`,
 		t.bodyWidth, strings.Join(t.cellStyle, ";"))
@@ -496,6 +511,7 @@ type obs struct {
 	cells  []obsCell
 	nrows  int
 	sx, sy float64
+	specW  *float64 // specified content-box width (box-sizing applied), nil = auto
 }
 
 func observe(t *tableSpec, tb *bo.TableBox) *obs {
@@ -511,14 +527,16 @@ func observe(t *tableSpec, tb *bo.TableBox) *obs {
 		}
 	}
 	o.nrows = gy
-	if t.specW != nil && t.borderBox && !t.adjusted {
-		// CSS box-sizing: the content width is the specified width minus padding and borders, floored at 0
-		v := *t.specW - float64(mf(tb.PaddingLeft)+mf(tb.PaddingRight)+tb.BorderLeftWidth+tb.BorderRightWidth)
-		if v < 0 {
-			v = 0
+	if t.specW != nil {
+		v := *t.specW
+		if t.borderBox {
+			// CSS box-sizing: the content width is the specified width minus padding and borders, floored at 0
+			v -= float64(mf(tb.PaddingLeft) + mf(tb.PaddingRight) + tb.BorderLeftWidth + tb.BorderRightWidth)
+			if v < 0 {
+				v = 0
+			}
 		}
-		t.specW = &v
-		t.adjusted = true
+		o.specW = &v
 	}
 	// border-spacing as CSS defines it: the declared value in the separated model (UA sheet: 2px), 0 when collapsing
 	o.sx, o.sy = t.sx, t.sy
@@ -531,8 +549,8 @@ func observe(t *tableSpec, tb *bo.TableBox) *obs {
 func (o *obs) gridX(t *tableSpec) sx.X {
 	tb := o.table
 	spec := sx.A("none")
-	if t.specW != nil {
-		spec = sx.R(*t.specW)
+	if o.specW != nil {
+		spec = sx.R(*o.specW)
 	}
 	cols := []sx.X{sx.A("cols")}
 	for i, w := range tb.ColumnWidths {
@@ -557,7 +575,7 @@ func (o *obs) gridX(t *tableSpec) sx.X {
 		minw := 0.0
 		if !t.fixed || t.specW == nil {
 			if cs := t.cells[c.id]; cs != nil {
-				minw = cs.minw
+				minw = cs.minWidth()
 			}
 		}
 		cells = append(cells, sx.L(sx.I(c.gx), sx.I(c.cs), sx.I(c.gy), sx.I(c.rs),
@@ -634,6 +652,7 @@ type runner struct {
 	fonts text.FontConfiguration
 	crash map[string]string
 	kept  map[string][]res.Finding // per key: the smallest failing inputs seen
+	specs map[string]*tableSpec    // per "unexplained" key: the smallest failing table, to be shrunk at the end
 }
 
 // keep remembers the 3 smallest inputs per finding key; they are added to the result at the end of the run.
@@ -658,7 +677,7 @@ func optX(m pr.MaybeFloat) sx.X {
 // fixedCorr compares fixedTableLayout with the model; returns the model's column widths (exact).
 func (rn *runner) fixedCorr(t *tableSpec, o *obs, src string, seed uint64) ([]*big.Rat, error) {
 	tb := o.table
-	W := pr.Float(*t.specW) // table.Width as resolved from the specified value
+	W := pr.Float(*o.specW) // table.Width as resolved from the specified value
 	cols := []sx.X{sx.A("cols")}
 	for _, g := range tb.ColumnGroups {
 		for _, c := range g.Children {
@@ -806,8 +825,7 @@ func (rn *runner) rowsCorr(t *tableSpec, o *obs, src string, seed uint64) error 
 				if c.group != gi || c.row != ri {
 					continue
 				}
-				spec := t.cells[c.id]
-				if spec == nil || c.box.VerticalAlign == "baseline" {
+				if c.box.VerticalAlign == "baseline" {
 					skip = true
 					break
 				}
@@ -998,6 +1016,11 @@ func (rn *runner) one(t *tableSpec, seed uint64) error {
 	for i, pt := range parts {
 		key := mode + ":" + pt
 		out.Hit("judge-fail:" + key)
+		if rn.specs != nil && strings.Contains(key, "unexplained") && t.raw == "" {
+			if old := rn.specs[key]; old == nil || len(src) < len(old.html()) {
+				rn.specs[key] = t
+			}
+		}
 		rn.keep(res.Finding{Kind: "judge", Op: "judge:grid:" + clauses[i], Input: src, Impl: o.dump(),
 			Reason: "GridConsistent fails: " + strings.Join(clauses, ", ") + " [" + strings.Join(parts, ", ") + "]", Key: key, Seed: seed})
 	}
@@ -1061,6 +1084,25 @@ func (rn *runner) explain(t *tableSpec, o *obs, mode, clause string, off map[str
 				return "empty-column-spacing"
 			}
 		}
+	case "specified-width":
+		// autoTableLayout: "Reduce the width of the size from the excess width that has not been distributed":
+		// the table is exactly as wide as its columns (+ the spacing it counts) and narrower than specified
+		if mode == "auto" {
+			orig := map[int]bool{}
+			for _, c := range o.cells {
+				orig[c.gx] = true
+			}
+			sum := o.sx
+			for i, w := range tb.ColumnWidths {
+				sum += float64(w)
+				if orig[i] {
+					sum += o.sx
+				}
+			}
+			if d := sum - float64(mf(tb.Width)); len(tb.ColumnWidths) > 0 && d <= eps*8 && d >= -eps*8 {
+				return "undistributed-excess-removed"
+			}
+		}
 	case "cell-on-rows", "row-edges":
 		if allShort {
 			return "short-rowspan-cell"
@@ -1081,7 +1123,7 @@ func (rn *runner) explain(t *tableSpec, o *obs, mode, clause string, off map[str
 				ok = false
 			}
 			if clause == "content-minimum" {
-				if cs := t.cells[o.cells[i].id]; cs != nil && cs.minw > 0 && mode == "auto" {
+				if cs := t.cells[o.cells[i].id]; cs != nil && cs.minWidth() > 0 && mode == "auto" {
 					ok = false
 				}
 			}
@@ -1090,7 +1132,374 @@ func (rn *runner) explain(t *tableSpec, o *obs, mode, clause string, off map[str
 			return "padding-exceeds-column"
 		}
 	}
+	if mode == "auto" && (clause == "content-minimum" || clause == "columns-fill") {
+		// not explained by a mechanism: key the failure by the structural features of the table the
+		// auto algorithm is known to mishandle, so that a failure on a table without any of them is
+		// still reported as plain "unexplained"
+		if sig := rn.signature(t, o, off[clause]); sig != "" {
+			return "unexplained[" + sig + "]"
+		}
+	}
 	return "unexplained"
+}
+
+// signature lists structural features of an auto-layout table (sorted, '+'-joined).
+func (rn *runner) signature(t *tableSpec, o *obs, offenders []int) string {
+	tb := o.table
+	var fs []string
+	pctCol, pxCol := false, false
+	for _, g := range tb.ColumnGroups {
+		boxes := []*bo.BoxFields{&g.BoxFields}
+		for _, c := range g.Children {
+			boxes = append(boxes, c.Box())
+		}
+		for _, b := range boxes {
+			w := b.Style.GetWidth()
+			if w.S == "auto" {
+				continue
+			}
+			if w.Unit == pr.Perc {
+				pctCol = true
+			} else {
+				pxCol = true
+			}
+		}
+	}
+	pctCell := false
+	orig := map[int]bool{}
+	slots := map[[2]int]int{}
+	overlap := false
+	for _, c := range o.cells {
+		orig[c.gx] = true
+		if w := c.box.Style.GetWidth(); w.S != "auto" && w.Unit == pr.Perc {
+			pctCell = true
+		}
+		for x := c.gx; x < c.gx+c.cs; x++ {
+			for y := c.gy; y < c.gy+c.rs; y++ {
+				slots[[2]int{x, y}]++
+				if slots[[2]int{x, y}] > 1 {
+					overlap = true
+				}
+			}
+		}
+	}
+	emptyCol := false
+	for i := range tb.ColumnWidths {
+		if !orig[i] {
+			emptyCol = true
+		}
+	}
+	_ = overlap
+	_ = pxCol
+	// one class per failure: percentage widths dominate, then columns without originating cell
+	allSpanning := len(offenders) > 0
+	for _, i := range offenders {
+		if o.cells[i].cs < 2 {
+			allSpanning = false
+		}
+	}
+	switch {
+	case allSpanning:
+		// only cells with colspan > 1 are too narrow: their min-content was not (fully) distributed to the columns
+		fs = append(fs, "spanning-cell")
+	case pctCell || pctCol:
+		fs = append(fs, "pct-width")
+	case emptyCol:
+		fs = append(fs, "column-without-originating-cell")
+	}
+	return strings.Join(fs, "+")
+}
+
+func (t *tableSpec) clone() *tableSpec {
+	c := *t
+	c.style = append([]string{}, t.style...)
+	c.cells = map[string]*cellSpec{}
+	c.groups = nil
+	for _, g := range t.groups {
+		ng := &groupSpec{kind: g.kind}
+		for _, row := range g.rows {
+			nr := &rowSpec{style: append([]string{}, row.style...)}
+			for _, cell := range row.cells {
+				nc := *cell
+				nc.style = append([]string{}, cell.style...)
+				nc.words = append([]int{}, cell.words...)
+				nr.cells = append(nr.cells, &nc)
+				c.cells[nc.id] = &nc
+			}
+			ng.rows = append(ng.rows, nr)
+		}
+		c.groups = append(c.groups, ng)
+	}
+	c.cols = nil
+	for _, col := range t.cols {
+		nc := *col
+		nc.children = append([]*colSpec{}, col.children...)
+		c.cols = append(c.cols, &nc)
+	}
+	return &c
+}
+
+// fails reports whether the judge still fails on t with the given finding key.
+func (rn *runner) fails(t *tableSpec, key string) bool {
+	scratch := &runner{m: rn.m, out: res.New("C13", "shrink", 0), fonts: rn.fonts, crash: map[string]string{}, kept: map[string][]res.Finding{}}
+	if err := scratch.one(t, 0); err != nil {
+		return false
+	}
+	return len(scratch.kept[key]) > 0
+}
+
+func dropStr(xs []string, i int) []string {
+	return append(append([]string{}, xs[:i]...), xs[i+1:]...)
+}
+
+// semantic table-level declarations mirrored in tableSpec fields: the shrinker leaves them alone
+func semantic(decl string) bool {
+	for _, p := range []string{"width:", "table-layout:", "border-collapse:", "border-spacing:", "direction:", "box-sizing:", "display:"} {
+		if strings.HasPrefix(decl, p) {
+			return true
+		}
+	}
+	return false
+}
+
+// shrink greedily removes groups, rows, cells, columns, attributes, contents and declarations while the
+// judge keeps failing with the same key (delta debugging over the generator's own structure).
+func (rn *runner) shrink(t *tableSpec, key string) *tableSpec {
+	cur := t.clone()
+	try := func(mut func(c *tableSpec) bool) bool {
+		c := cur.clone()
+		if !mut(c) {
+			return false
+		}
+		if rn.fails(c, key) {
+			cur = c
+			return true
+		}
+		return false
+	}
+	for pass := 0; pass < 6; pass++ {
+		changed := false
+		for gi := len(cur.groups) - 1; gi >= 0; gi-- {
+			gi := gi
+			if try(func(c *tableSpec) bool { c.groups = append(c.groups[:gi:gi], c.groups[gi+1:]...); return true }) {
+				changed = true
+				continue
+			}
+			for ri := len(cur.groups[gi].rows) - 1; ri >= 0; ri-- {
+				ri := ri
+				if try(func(c *tableSpec) bool {
+					g := c.groups[gi]
+					g.rows = append(g.rows[:ri:ri], g.rows[ri+1:]...)
+					return true
+				}) {
+					changed = true
+					continue
+				}
+				if try(func(c *tableSpec) bool {
+					r := c.groups[gi].rows[ri]
+					if len(r.style) == 0 || (c.css && len(r.style) == 1) {
+						return false
+					}
+					r.style = r.style[:len(r.style)-1]
+					return true
+				}) {
+					changed = true
+				}
+				for ci := len(cur.groups[gi].rows[ri].cells) - 1; ci >= 0; ci-- {
+					ci := ci
+					cell := func(c *tableSpec) *cellSpec { return c.groups[gi].rows[ri].cells[ci] }
+					if try(func(c *tableSpec) bool {
+						r := c.groups[gi].rows[ri]
+						r.cells = append(r.cells[:ci:ci], r.cells[ci+1:]...)
+						return true
+					}) {
+						changed = true
+						continue
+					}
+					ops := []func(c *tableSpec) bool{
+						func(c *tableSpec) bool {
+							x := cell(c)
+							if x.colspan == "" {
+								return false
+							}
+							x.colspan = ""
+							return true
+						},
+						func(c *tableSpec) bool {
+							x := cell(c)
+							if x.rowspan == "" {
+								return false
+							}
+							x.rowspan = ""
+							return true
+						},
+						func(c *tableSpec) bool {
+							x := cell(c)
+							if x.blockW == 0 {
+								return false
+							}
+							x.blockW, x.blockH = 0, 0
+							return true
+						},
+						func(c *tableSpec) bool {
+							x := cell(c)
+							if len(x.words) < 2 {
+								return false
+							}
+							x.words = x.words[:1]
+							return true
+						},
+						func(c *tableSpec) bool {
+							x := cell(c)
+							if x.tag != "th" {
+								return false
+							}
+							x.tag = "td"
+							return true
+						},
+					}
+					for _, op := range ops {
+						if try(op) {
+							changed = true
+						}
+					}
+					for si := len(cur.groups[gi].rows[ri].cells[ci].style) - 1; si >= 0; si-- {
+						si := si
+						if try(func(c *tableSpec) bool {
+							x := cell(c)
+							if strings.HasPrefix(x.style[si], "display:") {
+								return false
+							}
+							x.style = dropStr(x.style, si)
+							return true
+						}) {
+							changed = true
+						}
+					}
+				}
+			}
+		}
+		for i := len(cur.cols) - 1; i >= 0; i-- {
+			i := i
+			if try(func(c *tableSpec) bool { c.cols = append(c.cols[:i:i], c.cols[i+1:]...); return true }) {
+				changed = true
+			}
+		}
+		for si := len(cur.style) - 1; si >= 0; si-- {
+			si := si
+			if try(func(c *tableSpec) bool {
+				if semantic(c.style[si]) {
+					return false
+				}
+				c.style = dropStr(c.style, si)
+				return true
+			}) {
+				changed = true
+			}
+		}
+		for _, op := range []func(c *tableSpec) bool{
+			func(c *tableSpec) bool {
+				if !c.captionTop {
+					return false
+				}
+				c.captionTop = false
+				return true
+			},
+			func(c *tableSpec) bool {
+				if !c.captionBot {
+					return false
+				}
+				c.captionBot = false
+				return true
+			},
+			func(c *tableSpec) bool {
+				if !c.rtl {
+					return false
+				}
+				c.rtl = false
+				for i, d := range c.style {
+					if d == "direction:rtl" {
+						c.style = dropStr(c.style, i)
+						break
+					}
+				}
+				return true
+			},
+			func(c *tableSpec) bool {
+				if !c.collapse {
+					return false
+				}
+				c.collapse = false
+				for i, d := range c.style {
+					if d == "border-collapse:collapse" {
+						c.style = dropStr(c.style, i)
+						break
+					}
+				}
+				return true
+			},
+			func(c *tableSpec) bool {
+				if c.bodyWidth == 600 {
+					return false
+				}
+				c.bodyWidth = 600
+				if c.widthKind == "pct" {
+					return false
+				}
+				return true
+			},
+			func(c *tableSpec) bool {
+				if len(c.cellStyle) == 0 {
+					return false
+				}
+				c.cellStyle = c.cellStyle[:len(c.cellStyle)-1]
+				return true
+			},
+		} {
+			if try(op) {
+				changed = true
+			}
+		}
+		if !changed {
+			break
+		}
+	}
+	return cur
+}
+
+// corpusCase is one minimised past failure (corpus/C13/*.json), replayed before the generated cases.
+type corpusCase struct {
+	HTML      string   `json:"html"`
+	Fixed     bool     `json:"fixed"`
+	RTL       bool     `json:"rtl"`
+	Collapse  bool     `json:"collapse"`
+	SX        float64  `json:"sx"`
+	SY        float64  `json:"sy"`
+	SpecW     *float64 `json:"specW"`
+	BorderBox bool     `json:"borderBox"`
+	Note      string   `json:"note"`
+}
+
+func (rn *runner) corpus(dir string) error {
+	files, _ := filepath.Glob(filepath.Join(dir, "*.json"))
+	sort.Strings(files)
+	for _, f := range files {
+		b, err := os.ReadFile(f)
+		if err != nil {
+			return err
+		}
+		var c corpusCase
+		if err := json.Unmarshal(b, &c); err != nil {
+			return fmt.Errorf("%s: %w", f, err)
+		}
+		t := &tableSpec{raw: c.HTML, fixed: c.Fixed, rtl: c.RTL, collapse: c.Collapse, sx: c.SX, sy: c.SY, specW: c.SpecW,
+			borderBox: c.BorderBox, cells: map[string]*cellSpec{}}
+		rn.out.Hit("corpus")
+		if err := rn.one(t, 0); err != nil {
+			return err
+		}
+	}
+	return nil
 }
 
 // Run is the runner entry.
@@ -1115,7 +1524,7 @@ func Run(tier string, seed uint64, modelPath, repo string, out *res.Result) erro
 		"border-collapse x direction x container width; each laid out by the real pipeline on one tall page; judged by GridConsistent (eps 1/64 px) " +
 		"and compared with the model (fixed layout, column/cell placement, row pass; tolerance 2^-16 relative); " +
 		"non-trivial = at least two cells were laid out; distinct by document text"
-	rn := &runner{m: m, out: out, fonts: fonts, crash: map[string]string{}, kept: map[string][]res.Finding{}}
+	rn := &runner{m: m, out: out, fonts: fonts, crash: map[string]string{}, kept: map[string][]res.Finding{}, specs: map[string]*tableSpec{}}
 	if doc := os.Getenv("VERIF_C13_HTML"); doc != "" {
 		// debugging aid: lay out one given document and print the observed geometry
 		pages, _, err := render.LayoutOnly(doc, fonts, render.Opts{})
@@ -1128,6 +1537,13 @@ func Run(tier string, seed uint64, modelPath, repo string, out *res.Result) erro
 		fmt.Fprintln(os.Stderr, string(b))
 		return nil
 	}
+	dir := os.Getenv("VERIF_C13_CORPUS")
+	if dir == "" {
+		dir = "/verif/corpus/C13"
+	}
+	if err := rn.corpus(dir); err != nil {
+		return err
+	}
 	r := rng.New(seed)
 	for i := 0; i < n; i++ {
 		cr := r.Sub()
@@ -1135,6 +1551,19 @@ func Run(tier string, seed uint64, modelPath, repo string, out *res.Result) erro
 		t := genTable(cr)
 		if err := rn.one(t, caseSeed); err != nil {
 			return err
+		}
+	}
+	// shrink one failing table per unexplained class and put it first
+	for key, spec := range rn.specs {
+		small := rn.shrink(spec, key)
+		scratch := &runner{m: rn.m, out: res.New("C13", "shrink", 0), fonts: rn.fonts, crash: map[string]string{}, kept: map[string][]res.Finding{}}
+		if err := scratch.one(small, 0); err == nil && len(scratch.kept[key]) > 0 {
+			f := scratch.kept[key][0]
+			f.Reason += " (input shrunk by the harness)"
+			rn.kept[key] = append([]res.Finding{f}, rn.kept[key]...)
+			if len(rn.kept[key]) > 3 {
+				rn.kept[key] = rn.kept[key][:3]
+			}
 		}
 	}
 	var ks []string
